@@ -178,8 +178,9 @@ theorem decrypt_encrypt {A : Aead} (hA : A.Lawful) (pw salt nonce m : Bytes)
     decrypt A pw (encrypt A pw salt nonce m) = .ok m := by
   obtain ⟨h1, h2, h3⟩ := slices_of_blob salt nonce (A.lock pw salt nonce m) hs hn
   have hlen : ¬ (encrypt A pw salt nonce m).length < minLength := by
-    simp only [encrypt, List.length_append, hs, hn, hA.seal_length]
+    simp only [encrypt, List.length_append, hs, hn]
     have : minLength ≤ encSaltLen + encNonceLen + tagLength := by decide
+    have := hA.seal_length pw salt nonce m
     omega
   simp only [decrypt, hlen, if_false]
   simp only [encrypt, h1, h2, h3, hA.open_seal]
@@ -189,8 +190,9 @@ theorem decrypt_encrypt_wrong {A : Aead} (hA : A.Lawful) (pw pw' salt nonce m : 
     decrypt A pw' (encrypt A pw salt nonce m) = .error .invalidTag := by
   obtain ⟨h1, h2, h3⟩ := slices_of_blob salt nonce (A.lock pw salt nonce m) hs hn
   have hlen : ¬ (encrypt A pw salt nonce m).length < minLength := by
-    simp only [encrypt, List.length_append, hs, hn, hA.seal_length]
+    simp only [encrypt, List.length_append, hs, hn]
     have : minLength ≤ encSaltLen + encNonceLen + tagLength := by decide
+    have := hA.seal_length pw salt nonce m
     omega
   simp only [decrypt, hlen, if_false]
   simp only [encrypt, h1, h2, h3, hA.auth pw pw' salt nonce m hne]
